@@ -219,7 +219,8 @@ def TRIM(
     https://support.office.com/en-us/article/
         trim-function-410388fa-c5df-49c6-b16c-9e5630b479f9
     """
-    return str(text).strip()
+    # Only the space character counts, tabs and non-breaking spaces stay.
+    return ' '.join(word for word in str(text).split(' ') if word)
 
 
 @xl.register()
